@@ -16,7 +16,9 @@ CP = ["none", "pass", "reject", "raise", "odd", "raise0", "lt50", "fpass", "frej
 # boolraise: it answers with an object whose truth value cannot be taken (`__bool__` raises) - a gate error
 CP_AS = {"fpass": "pass", "freject": "reject", "fraise": "raise", "truthy": "pass", "falsy": "reject", "boolraise": "raise"}
 PR = ["ok", "raise", "raise0", "zero", "nil"]
-EH = ["none", "ok", "raise", "raise0", "zero", "nil"]  # zero / nil: return the falsy signals 0 / None (a value is a value)
+EH = ["none", "ok", "raise", "raise0", "zero", "nil", "fok"]  # zero / nil: return the falsy signals 0 / None (a value is a value)
+# fok: a handler OBJECT that would recover but whose own truth value is false (`__bool__` False / `__len__` 0): the code asks
+# `if stage.on_error:` and does not consult it - the stage fails (the conservative direction); modelled as "no handler"
 AMPS = ["1", "2", "4", "1/2", "8", "1/4", "0", "-2"]
 MAXA = ["4", "100", "1", "16", "4", "100", "1/2", "1/4", "0"]
 
@@ -290,6 +292,12 @@ class C19(Prop):
                 for s2 in small:
                     extra.append(self._case(halt, "4", [s1, s2], 1, "exhaustive falsy signal"))
                     extra.append(self._case(halt, "4", [s2, s1], 1, "exhaustive falsy signal"))
+        for halt in (True, False):
+            for cp in ("none", "pass", "reject"):
+                for pr in ("ok", "raise", "raise0"):
+                    for req in (True, False):
+                        extra.append(self._case(halt, "4", [(cp, pr, "fok", req, "2"), ("pass", "ok", "none", True, "2")], 1,
+                                                "exhaustive: a handler object whose own truth value is false"))
         par = []
         for halt in (True, False):
             for s1 in small:
@@ -537,11 +545,12 @@ class C19(Prop):
                     return 0
                 if eh == "nil":
                     return None
-                if eh != "ok":
+                if eh not in ("ok", "fok"):
                     raise fault(eh, "e")
                 return 7000 + i0
+            handler = None if eh == "none" else (FalsyGateLen if i0 % 2 else FalsyGateBool)(ef) if eh == "fok" else ef
             st = m.CascadeStage(name, pf, amplification=num(amp), checkpoint=cpf,
-                                on_error=None if eh == "none" else ef, required=flag(req))
+                                on_error=handler, required=flag(req))
             d["stage"] = st
             return d, st
 
